@@ -491,16 +491,6 @@ def replyConforms (handler : Nat) (b : Boxed) : Bool :=
   | none => true
   | some sh => sh.admits b
 
-/-- which handler(s) each operation on a proxy / connection issues, in order (the published meaning of the
-operations of the 5.x client side; `root` also inspects the class of the object it receives, `buffiter` first asks
-for an iterator and stops at the first empty chunk) -/
-def operationHandlers : List (String × List Nat) :=
-  [("root", [3, 16]), ("ping", [1]), ("getattr", [4]), ("setattr", [6]), ("delattr", [5]), ("call", [7]),
-   ("call-kw", [7]), ("callattr-special", [8]), ("callattr-kw", [8]), ("cmp-eq", [11]), ("cmp-lt", [11]),
-   ("hash", [12]), ("str", [10]), ("repr", [9]), ("dir", [13]), ("ctxexit", [19]), ("pickle", [14]),
-   ("oldslicing", [18]), ("buffiter", [8, 17, 17]), ("class-proxy", [16]), ("instancecheck", [20]),
-   ("del-class", [15]), ("call-with-object", [7]), ("del", [15]), ("close", [2])]
-
 /-! ### reading a received value back as a message (what a receiver does with the decoded payload) -/
 
 mutual
